@@ -48,3 +48,17 @@ func vH_FP_shift(nd int, dp int, k int, left bool) {
 	vReach("C04.shift-done")
 	vAssertShift(&before, &a, k, left, "C04.shift-exact")
 }
+
+// ---- C04 tier 5c: decimal.set on its own -----------------------------------------------
+// data is a grammatical number literal (template); set must accept it and leave a decimal that
+// denotes it: digits*10^(dp-nd) = |v| exactly, or - with trunc - |v| strictly inside the last digit's
+// bracket; sign kept; no leading zero digit.
+func vH_FP_set(data []byte) {
+	var d decimal
+	ok := d.set(data)
+	vReach("C04.set-returned")
+	vAssert(ok, "C04.set-accepts")
+	if ok {
+		vAssertSetValue(data, &d, "C04.set-value")
+	}
+}
